@@ -146,7 +146,10 @@ namespace avel {
 
     [[nodiscard]]
     AVEL_FINL double fdim(double x, double y) {
-        return avel::max(x - y, 0.0);
+        if (x <= y) {
+            return 0.0;
+        }
+        return x - y;
     }
 
     [[nodiscard]]
